@@ -176,8 +176,8 @@ def run(prog, chk):
     # ---- R19.2 ---------------------------------------------------------------------------------
     if order:
         loops = [n for n in SX.walk(ld.body) if n['k'] == 'forrange' and _m(n['range'], order)]
-        moved = [n for lp in loops for n in SX.walk(lp['body']) if n['k'] == 'mcall' and SX.short(n['callee']) in ('push_back', 'emplace_back')
-                 and any(x['k'] == 'member' and x['name'] in ('classes', 'functions', 'statements') for x in SX.walk(n.get('obj')))]
+        moved = [n for lp in loops for n in SX.walk(lp['body']) if SX.append_target(n) is not None
+                 and any(x['k'] == 'member' and x['name'] in ('classes', 'functions', 'statements') for x in SX.walk(SX.append_target(n)))]
         bad = [n for n in SX.walk(ld.body) if n['k'] == 'forrange' and _m(n['range'], cache)]
         chk.ob('R19.2', ld, loops[0].get('ln', ld.ln) if loops else ld.ln, len(moved) >= 2 and not bad,
                'merged classes/functions are appended while iterating %s (found %d appends; loops over the hash cache: %d)' % (order, len(moved), len(bad)), key='merge-order')
@@ -201,7 +201,24 @@ def run(prog, chk):
         # first hit wins: a return inside the loop over the roots
         loops = [n for n in SX.walk(f.body) if n['k'] == 'forrange' and SX.is_node(SX.strip(n['range'])) and
                  (SX.strip(n['range']).get('k') == 'ref' or (bf is not f and SX.strip(n['range']).get('k') == 'call' and SX.strip(n['range']).get('callee') == bf.name))]
-        first = any(any(x['k'] == 'return' for x in SX.walk(lp['body'], into_lambdas=False)) for lp in loops)
+        # (a root helper applied to a callback, once expanded, leaves the loop through the end of its inlined block)
+        first = any(any(x['k'] in ('return', 'ireturn') for x in SX.walk(lp['body'], into_lambdas=False)) for lp in loops)
+        # … and once a hit is recorded (a value returned from inside the loop, or stored in the variable the function returns),
+        # no path goes on to the next root
+        resvars = {SX.strip(r.e.get('e')).get('id') for r in gg.nodes if r.kind == 'return' and SX.is_node(SX.strip(r.e.get('e'))) and SX.strip(r.e['e']).get('k') == 'ref'
+                   and SX.strip(r.e['e']).get('kind') == 'var'}
+        nh = 0
+        for lp in loops:
+            heads = [n for n in gg.nodes if n.kind == 'loophead' and n.e is lp]
+            if len(heads) != 1:
+                continue
+            cyc = gg.reachable([heads[0]]) & gg.reachable([heads[0]], forward=False)
+            for n, l, r, op in gg.writes():
+                l0 = SX.strip(l)
+                if n.id in cyc and op == '=' and SX.is_node(l0) and l0.get('k') == 'ref' and l0.get('id') in resvars:
+                    nh += 1
+                    if not _leaves_loop_after(gg, n, heads[0]):
+                        first = False
         chk.ob('R19.3', f, f.ln, first, '%s returns at the first root that has the module' % name, key='first-hit:' + name)
     # resolution is a pure function of (name, importing directory, configured search paths, working directory)
     from .C13 import _config_members
@@ -223,8 +240,13 @@ def run(prog, chk):
                                   and e['obj'].get('t', '').startswith('std::vector<std::string'))]
     okf = bool(pushes) and all(any(pol and '".bloch"' in SX.show(ce) and 'extension' in SX.show(ce) for ce, pol, _ in gg.guards(p)) for p in pushes)
     chk.ob('R19.4', f, f.ln, okf, 'only files with extension .bloch are listed', key='filter-ext')
-    rets = [n for n in gg.nodes if n.kind == 'return' and SX.is_node(n.e.get('e')) and n.e['e'].get('k') == 'ref' and pushes and n.e['e'].get('id') == pushes[0].e['obj'].get('id')]
-    sorts = [c for c in gg.calls(lambda e: e['k'] == 'call' and e.get('callee') in ('std::sort', 'std::stable_sort'))]
+    lid = pushes[0].e['obj'].get('id') if pushes else None
+    rets = [n for n in gg.nodes if n.kind == 'return' and SX.is_node(n.e.get('e')) and n.e['e'].get('k') == 'ref' and pushes and n.e['e'].get('id') == lid]
+    # the listing may leave through the result variable it is moved/copied into (`found = std::move(modules)`)
+    rets += [n for n, l, r, op in gg.writes() if pushes and op == '=' and SX.is_node(SX.strip(l)) and SX.strip(l).get('k') == 'ref' and SX.strip(l).get('id') != lid
+             and SX.is_node(r) and any(x['k'] == 'ref' and x.get('id') == lid for x in SX.walk(r))]
+    sorts = [c for c in gg.calls(lambda e: e['k'] == 'call' and e.get('callee') in ('std::sort', 'std::stable_sort')
+                                 and any(x['k'] == 'ref' and x.get('id') == lid for x in SX.walk(e)))]
     oks = bool(rets) and bool(sorts) and all(gg.must_precede(sorts, r) for r in rets)
     chk.ob('R19.4', f, f.ln, oks, 'the listing is sorted before it is returned (directory iteration order is unspecified)', key='sorted')
 
@@ -251,6 +273,51 @@ def run(prog, chk):
     incs = [n for n, l, r, op in gl.writes() if op == '++' and any(SX.is_node(SX.strip(l)) and SX.strip(l).get('id') == v['id'] for v in cnt)]
     okc = bool(incs) and all(any(pol and '"main"' in SX.show(ce) for ce, pol, _ in gl.guards(n)) for n in incs)
     chk.ob('R19.5', ld, ld.ln, okc, 'main counter is incremented exactly for functions named "main"', key='main-count')
+
+
+def _leaves_loop_after(g, hit, head):
+    """no path from node `hit` comes back to the loop head — path-sensitive in the boolean locals that are assigned constants
+    on the way (`__ret = true; … if (__ret) <leave>`: the flag of an expanded callback)"""
+    seen = set()
+    work = [(s_, frozenset()) for s_ in hit.succ + hit.xsucc]
+    steps = 0
+    while work:
+        n, env = work.pop()
+        steps += 1
+        if steps > 20000:
+            return False
+        if (n.id, env) in seen:
+            continue
+        seen.add((n.id, env))
+        if n is head:
+            return False
+        d = dict(env)
+        if n.kind == 'edge':
+            c, pol = SX.strip(n.e), n.pol
+            while SX.is_node(c) and c.get('k') == 'un' and c.get('op') == '!':
+                c, pol = SX.strip(c['e']), not pol
+            if SX.is_node(c) and c.get('k') == 'ref' and c.get('id') in d and d[c['id']] != pol:
+                continue          # infeasible branch
+        elif n.kind in ('assign', 'incdec', 'call') and SX.is_node(n.e):
+            w = SX.write_target(n.e)
+            if w:
+                l0 = SX.strip(w[0])
+                if SX.is_node(l0) and l0.get('k') == 'ref':
+                    r0 = SX.strip(w[1]) if w[1] is not None else None
+                    if w[2] == '=' and SX.is_node(r0) and r0.get('k') == 'bool':
+                        d[l0['id']] = bool(r0['v'])
+                    else:
+                        d.pop(l0.get('id'), None)
+        elif n.kind == 'decl' and SX.is_node(n.e):
+            i0 = SX.strip(n.e.get('init')) if SX.is_node(n.e.get('init')) else None
+            if SX.is_node(i0) and i0.get('k') == 'bool':
+                d[n.e['id']] = bool(i0['v'])
+            else:
+                d.pop(n.e.get('id'), None)
+        env2 = frozenset(d.items())
+        for s_ in n.succ + n.xsucc:
+            work.append((s_, env2))
+    return True
 
 
 def _roots_builder(prog, f):
